@@ -84,7 +84,9 @@ def classify(res, lmap, funcs):
         prim = [sp for sp in spans if sp.get('is_primary')] or spans
         fn_idx = None
         where = None
-        for sp in spans:
+        # the function at fault is the one containing the PRIMARY span (e.g. the call site of a failed
+        # precondition), not the one whose contract text is quoted in a secondary label
+        for sp in (prim + [x for x in spans if x not in prim]):
             ln = sp.get('line_start', 0)
             if 1 <= ln <= len(lmap):
                 o = lmap[ln - 1]
